@@ -104,6 +104,9 @@ def correspond(ctx, kind, progs, results, to_coq, fn, requires):
         for p, r, v in zip(chunk, results[k:k + SHARD], vals):
             ctx.traces += 1
             mt, ms = list(v[0]), list(v[1])
+            if kind == "pr":
+                from harness import c17_impl as impl
+                mt = impl.filter_model_trace(mt, r["kinds"])
             if mt != r["trace"] or ms != r["state"]:
                 nbad += 1
                 ctx.fail("correspondence/%s" % kind,
@@ -195,5 +198,109 @@ def ev_programs(ctx):
     return out
 
 
+PR_LETTERS = "SsOWXEVBCvbTRZz"
+
+
+def pr_letter(ch, st):
+    """st: dict(n=number of promises so far, mid=.., w=..)"""
+    def mid():
+        st["mid"] += 1
+        return st["mid"]
+
+    def w():
+        st["w"] += 1
+        return st["w"]
+    last = st["n"] - 1
+    if ch == "S":
+        st["n"] += 1
+        return ["send", 0, mid(), ["ret", 10 + st["mid"]]]
+    if ch == "s":
+        st["n"] += 1
+        return ["send", 1, mid(), ["raise", 20 + st["mid"]]]
+    if ch == "R":
+        st["n"] += 1
+        return ["send", 0, mid(), ["retp", 1]]
+    if ch == "Z":
+        st["n"] += 1
+        return ["send", last, mid(), ["ret", 30 + st["mid"]]]
+    if ch == "z":
+        return ["when", last, w(), "when"]
+    if ch == "O":
+        return ["sendonly", 0, mid(), ["ret", 0]]
+    if ch == "W":
+        return ["when", 0, w(), "when"]
+    if ch == "X":
+        return ["when", 0, w(), "then"]
+    if ch == "E":
+        return ["when", 1, w(), "except"]
+    if ch == "V":
+        return ["resolve", 0, ["val", 5]]
+    if ch == "B":
+        return ["resolve", 0, ["fail", 6]]
+    if ch == "C":
+        return ["resolve", 0, ["prom", 1]]
+    if ch == "v":
+        return ["resolve", 1, ["val", 7]]
+    if ch == "b":
+        return ["resolve", 1, ["fail", 8]]
+    if ch == "T":
+        return ["turn"]
+    raise ValueError(ch)
+
+
+def pr_word(w):
+    st = dict(n=2, mid=0, w=100)
+    return [["new"], ["new"]] + [pr_letter(ch, st) for ch in w]
+
+
+def pr_random(rng):
+    prog = []
+    n = 0
+    mid = 0
+    w = 100
+    for _ in range(rng.randint(1, 3)):
+        prog.append(["new"])
+        n += 1
+    for _ in range(rng.randint(3, 18)):
+        k = rng.random()
+        p = rng.randrange(n) if rng.random() < 0.7 else n - 1
+        if k < 0.25:
+            prog.append(["turn"])
+        elif k < 0.45:
+            mid += 1
+            b = rng.choice([["ret", mid + 40], ["ret", mid + 40], ["raise", mid + 60], ["retp", rng.randrange(n + 1)]])
+            if rng.random() < 0.75:
+                prog.append(["send", p, mid, b])
+                n += 1
+            else:
+                prog.append(["sendonly", p, mid, b])
+        elif k < 0.65:
+            w += 1
+            prog.append(["when", p, w, rng.choice(["when", "when", "then", "except"])])
+        elif k < 0.93:
+            x = rng.choice([["val", rng.randrange(1, 9)], ["fail", rng.randrange(1, 9)], ["prom", rng.randrange(n)],
+                            ["prom", rng.randrange(n)]])
+            prog.append(["resolve", p, x])
+        else:
+            prog.append(["new"])
+            n += 1
+    for _ in range(rng.choice([0, 0, 1, 2, 4])):
+        prog.append(["turn"])
+    return prog
+
+
 def pr_programs(ctx):
-    return []
+    out = []
+    maxlen = ctx.n(3, 4)
+    for n in range(1, maxlen + 1):
+        for wd in itertools.product(PR_LETTERS, repeat=n):
+            out.append(pr_word(wd))
+    # every word of length 4..5 over the core alphabet that has a resolution, a send, an observer and a turn
+    core = "SWVBCvbT"
+    for n in (4, ctx.n(4, 6)):
+        for wd in itertools.product(core, repeat=n):
+            if "T" in wd and "S" in wd and ("V" in wd or "B" in wd or "C" in wd):
+                out.append(pr_word(wd))
+    for _ in range(ctx.n(1500, 60000)):
+        out.append(pr_random(ctx.rng))
+    return out
